@@ -296,7 +296,7 @@ fn run_cfg(cfg: &Cfg, hang_ms: u64) -> (Vec<Problem>, Value) {
                 });
             }
             if back && ret == Some(Ret::Accepted) {
-                if load_b != Some(0) {
+                if matches!(load_b, Some(x) if x != 0) {
                     problems.push(Problem {
                         ty: "contract",
                         sig: json!({"site": "pool", "kind": "counter-not-zero-after-all-workers-retired"}),
